@@ -7,7 +7,9 @@ from hypothesis import strategies as st
 
 from vf import dense, gen
 from vf.core import Clause, Property, Violation
-from vf.osk import call_kwargs, eff_tau, mk_model, mk_teams
+from vf.league import OracleLeague
+from vf.osk import GAMMA_NAMES, call_kwargs, eff_tau, mk_model, mk_teams
+from vf.stateful import machine_factory, replayer
 
 
 def finite(x):
@@ -123,6 +125,41 @@ def fuzz_custom(ctx, seed, tier, shard, nshards, n):
     fuzz_clause(ctx, "vf.fuzz.c08_target", n, seed, f"c08-{shard}", corpus, max_len=1024)
 
 
+class TotalLeague(OracleLeague):
+    """League history over the widest configuration domain (kappa down to 1e-12, every gamma callback, corner ratings, teams of up to 8):
+    ratings are fed back game after game until they leave the numeric domain (then retired); every number finite, nothing raised."""
+    ORACLES = ("total",)
+    PID = "C08"
+    MAX_SIZE = 8
+
+    @classmethod
+    def init_strategy(cls):
+        @st.composite
+        def init(draw):
+            cfg = draw(gen.configs(gammas=GAMMA_NAMES, kappa_lo=1e-12, tm_relative_kappa=False))
+            beta = cfg["beta"]
+            n = draw(st.integers(5, 16))
+            style = draw(st.sampled_from(["spread", "corner", "new-players", "settled", "far-apart"]))
+            players = []
+            for k in range(n):
+                if style == "new-players":
+                    players.append([cfg["mu"], cfg["sigma"]])
+                elif style == "corner":
+                    players.append([draw(st.sampled_from([-20.0, 20.0, 0.0, 6.0])) * beta, draw(st.sampled_from([1e-4, 10.0, 2.0])) * beta])
+                elif style == "settled":
+                    players.append([draw(st.floats(-20.0, 20.0)) * beta, draw(st.floats(1e-4, 1e-2)) * beta])
+                elif style == "far-apart":
+                    players.append([(-18.0 if k % 2 else 18.0) * beta + draw(st.floats(-1.0, 1.0)) * beta, draw(st.floats(0.01, 1.0)) * beta])
+                else:
+                    players.append([draw(st.floats(-20.0, 20.0)) * beta, draw(gen.logu(1e-4, 10.0)) * beta])
+            return {"op": "init", "cfg": cfg, "players": players, "style": style}
+
+        return init()
+
+
+TotalLeague.RULES = dict(OracleLeague.RULES)
+
+
 PROPERTY = Property(
     pid="C08",
     clauses=[
@@ -136,6 +173,12 @@ PROPERTY = Property(
                rule="predict_win, predict_draw, predict_rank and rate on one generated game of the widest stated domain (2..8 teams, 1..16 players, corner-heavy "
                     "values, sigma = 0 with tau >= 1e-6 beta, kappa down to 1e-12, scale 1e-3..1e3); non-trivial = team of >= 8 players, or sigma = 0, or the "
                     "kappa floor binds, or scale != 1, or a pair constructed in the 5-9 sigma band"),
+        Clause(name="league-history", kind="stateful", machine=machine_factory(TotalLeague), check=replayer(TotalLeague),
+               quick=320, thorough=6000, steps_quick=40, steps_thorough=200,
+               rule="rule-based machine: 5-16 rating objects on one model over the widest configuration domain (kappa down to 1e-12, every gamma callback, "
+                    "corner / settled / far-apart ratings, teams of up to 8); rate() results fed back game after game (the returned list itself rated "
+                    "again, per-call options alternating) with the three predictions interleaved on the same objects; players leaving the numeric "
+                    "domain are retired; oracle: nothing raised, every number finite; non-trivial = >= 8 games with some player in >= 4"),
     ],
     rule="generated games over the widest valid domain; oracle: no exception of any kind, every returned number finite; distinct by SHA-1 of the case",
     assumptions=["sigma = 0 is only generated together with an effective tau >= 1e-6 beta (a tau whose square underflows is not 'tau > 0' numerically)"],
